@@ -74,12 +74,15 @@ def skipCS (c : Cfg) : P Unit := do
 
 /-! ### table slice (tableslice.c) -/
 
+/-- `!subset || subset[i]` -/
+def wantCol (sub : Option (List Bool)) (i : Nat) : Bool :=
+  match sub with | none => true | some s => s.getD i false
+
 /-- columns of a slice, chosen per column by the subset (`none` = read all) -/
 def readCols (c : Cfg) : Nat → Option (List Bool) → Nat → P (List (Option CS))
   | 0, _, _ => P.pure []
   | n+1, subset, i => do
-    let want := match subset with | none => true | some s => s.getD i false
-    let col ← (if want then do let cs ← readCS c; P.pure (some cs)
+    let col ← (if wantCol subset i then do let cs ← readCS c; P.pure (some cs)
                else do skipCS c; P.pure none)
     let rest ← readCols c n subset (i + 1)
     P.pure (col :: rest)
